@@ -46,11 +46,17 @@ def run (ctx):
       inside = _in_with(cl.node, n, 'self._lock')
       ctx.ob('R-LOCK', cl, "test-and-create of the call-later task (line %s, %s) is inside the scheduler lock" % (n.lineno, type(n.ctx).__name__), inside, "within `with self._lock`" if inside else
              "`self._callLaterTask` is tested/created outside `with self._lock`: two threads can each create a CallLaterTask and one thread's functions are handed to a task that was overwritten", (mod, n), 'D1')
-  ctx.floor('call-later task accesses under lock', n_lock, 3)
+  ctx.floor('call-later task accesses under lock', n_lock, 2)
   g = q.cfg_of(cl)
   mk = g.nodes_with_call(lambda c: call_name(c) == 'CallLaterTask'); st = g.nodes_with_call(lambda c: call_name(c) == 'start')
   ctx.ob('R-ORDER', cl, "a new call-later task is started before functions are handed to it", bool(mk) and bool(st) and g.dominates(mk[0], st[0]) and g.postdominates(st, mk[0]), "create, start, then callLater", cl, 'D1')
-  ho = g.nodes_with_call(lambda c: call_name(c) == 'callLater' and '_callLaterTask' in norm(c.func.value))
+  def is_task_ref (e):
+    if '_callLaterTask' in norm(e): return True
+    if isinstance(e, ast.Name):
+      ds = [v for v, st_, k in q.reaching_assign(cl.node, e.id)]
+      return bool(ds) and all(v is not None and ('_callLaterTask' in norm(v) or (isinstance(v, ast.Call) and call_name(v) == 'CallLaterTask')) for v in ds)
+    return False
+  ho = g.nodes_with_call(lambda c: call_name(c) == 'callLater' and isinstance(c.func, ast.Attribute) and is_task_ref(c.func.value))
   iv = g.interval(lambda n: n in ho)
   ctx.ob('R-EFFECT', cl, "each submitted function is handed over exactly once", iv == (1, 1), "hand-off count %s" % (iv,), cl, 'D1')
   # ---- D2 ----------------------------------------------------------------------------------------
@@ -188,7 +194,7 @@ def run (ctx):
   for held in (False, True):
     for blocking in (False, True):
       env = q.Env({'self._locked': '<owner>' if held else None, 'blocking': blocking})
-      r = q.reach_under(repo, mod, g, env, lk)
+      r = q.reach_under_cp(repo, mod, g, env, lk)      # constant propagation: the decision may be taken through a temporary
       p = [n for n in park if n in r]; o = [n for n in own if n in r]
       want_park = held and blocking; want_own = not held
       good = (bool(p) == want_park) and (bool(o) == want_own)
@@ -204,10 +210,20 @@ def run (ctx):
   ctx.floor('lock hand-over sites', len(popw) + len(sched), 2)
   iv = g.interval(lambda n: n in popw); iv2 = g.interval(lambda n: n in sched)
   ctx.ob('R-EFFECT', dr, "a release hands the lock to at most one waiter and schedules it once", iv is not None and iv[1] <= 1 and iv2 is not None and iv2[1] <= 1, "pop %s, schedule %s" % (iv, iv2), dr, 'D5')
-  r = q.reach_under(repo, mod, g, q.Env({'self._waiting': ['<t>'], 'not self._locked': False, 'self._locked': '<me>'}), lk)
-  good = all(n in r for n in popw + sched) and bool(popw)
+  # decided by evaluation: with a waiter present every path ends with that waiter as the owner and scheduled;
+  # with none, the lock ends free and nothing is scheduled
+  popm = (lambda e: isinstance(e, ast.Call) and call_name(e) in ('pop', 'popleft') and norm(e.func.value) == 'self._waiting')
+  def final_states (waiters):
+    env = q.Env({'self._waiting': list(waiters), 'self._locked': '<me>'}, [(popm, waiters[0] if waiters else q.OPAQUE)])
+    out = []
+    for p_, e_ in q.paths_under(repo, mod, g, env, g.entry, [g.exit], lk, limit=100):
+      out.append((e_.exact.get('self._locked', '?'), any(n in sched for n in p_)))
+    return out
+  fw = final_states(['<t>']); fn_ = final_states([])
+  good = bool(fw) and all(o == '<t>' and s_ for o, s_ in fw) and bool(fn_) and all(o is None and not s_ for o, s_ in fn_) and bool(popw)
   hand = [q.enclosing_stmt_node(g, st) for t, v, st, k in q.stores_in(dr.node) if norm(t) == 'self._locked' and v is not None and norm(v) not in ('None', 'False')]
-  ctx.ob('R-DOM', dr, "with waiters present the lock is never left free: one waiter becomes the owner", good and bool(hand) and all(any(g.dominates(p, h) for p in popw) for h in hand), "pop -> owner = waiter -> schedule", dr, 'D5')
+  ctx.ob('R-DOM', dr, "with waiters present the lock is never left free: one waiter becomes the owner", good,
+         "waiter present -> owner = waiter, scheduled; none -> free" if good else "final (owner, scheduled) with a waiter: %s; without: %s" % (fw, fn_), dr, 'D5')
   if popw and sched and hand:
     c = [c for c in q.node_calls(sched[0]) if call_name(c) in ('fast_schedule', 'schedule')][0]
     wv = popw[0].ast.targets[0].id if isinstance(popw[0].ast, ast.Assign) else None
